@@ -9,7 +9,7 @@
    (headers, type lines, conditions, comments) and for names that are keywords; decided on every run by running
    the three-round composition of the implementation on each accepted document (both paths) and, as
    correspondence, the model's own composition (Transform.roundtrip) against it. *)
-From Verif Require Import Base.Str Base.Outcome Model.Ast Model.Token Model.Parser Model.Listener Model.Printer
+From Verif Require Import Spec.DocDomain Base.Str Base.Outcome Model.Ast Model.Token Model.Parser Model.Listener Model.Printer
   Model.Transform Spec.Sem Spec.Expressible Spec.Normalize Proofs.ListenerSem Proofs.ListenerFile Proofs.ParserShape Proofs.RoundTrip Proofs.Lossless Proofs.ParserTokens Proofs.AcceptedText
   Proofs.ParserComplete Proofs.LexInversion Proofs.LexRender Proofs.RoundTripChars Proofs.DeclRoundTrip Proofs.DocLex Proofs.DocParse Proofs.DocChars Proofs.DocSem Proofs.DocPrepass Proofs.DocPrint Proofs.DocRoundTrip Proofs.DocStable.
 
